@@ -68,8 +68,11 @@ if SPEC in SLICED:
     from fandango.language.parse.slice_parties import slice_parties
 
     KEEP = SLICED[SPEC][1]
-    G_REF = load(PROTO_SPECS[SPEC])  # untouched copy for the reference
-    slice_parties(G, set(KEEP), ignore_receivers=False)  # the real slicing, on the grammar the forecaster gets
+    # Reading a protocol spec already slices it to the fuzzer-controlled parties (truncate_invisible_packets ->
+    # slice_parties): G above IS the really sliced grammar.  The reference needs the unsliced IR: the same spec
+    # text with every party declared fuzzer-controlled, so that nothing is truncated at load time.
+    G_REF = load(PROTO_SPECS[SPEC].replace("ConnectionMode.EXTERNAL", "ConnectionMode.OPEN").replace(
+        "        super().__init__(connection_mode=ConnectionMode.OPEN)\n\n\nclass", "        super().__init__(connection_mode=ConnectionMode.OPEN)\n\n    def send(self, message, recipient):\n        pass\n\n\nclass"))
 nodes_mod.MAX_REPETITIONS = 3
 
 
